@@ -259,3 +259,44 @@ Fixpoint client_run (cl : list N) (rs : list resp) (news : list N) : option (lis
     | Some (cl', news') => client_run cl' rest news'
     end
   end.
+
+(* ------------------------------------------- the shadow clients of a trace *)
+Definition label_actor (l : label) : option N :=
+  match l with Cmd s _ | IdleWake s | IdleDone s => Some s | _ => None end.
+(* a SELECT/EXAMINE that is really executed (not swallowed by a pending IDLE) *)
+Definition starts_fresh (sy : sys) (l : label) : bool :=
+  match l with
+  | Cmd s (CSelect _ _) => negb (ss_idle (sess_of sy s))
+  | _ => false
+  end.
+Definition cl_update (s : N) (v : option (list N)) (f : N -> option (list N)) : N -> option (list N) :=
+  fun i => if (i =? s)%N then v else f i.
+
+(* one step of the system together with the clients of all connections:
+   None = some client could not follow its connection's responses *)
+Definition shadow_step (st : sys * (N -> option (list N))) (l : label)
+  : option (sys * (N -> option (list N))) :=
+  let '(sy, cls) := st in
+  let '(sy', rs) := step sy l in
+  match label_actor l with
+  | None => Some (sy', cls)
+  | Some s =>
+    match view_of sy' s with
+    | None => Some (sy', cl_update s None cls)      (* nothing selected (any more) *)
+    | Some v' =>
+      match (if starts_fresh sy l then Some [] else cls s) with
+      | None => None
+      | Some cl =>
+        match client_run cl rs (ndiff v' cl) with
+        | Some cl' => Some (sy', cl_update s (Some cl') cls)
+        | None => None
+        end
+      end
+    end
+  end.
+Fixpoint shadow_exec (st : sys * (N -> option (list N))) (ls : list label)
+  : option (sys * (N -> option (list N))) :=
+  match ls with
+  | [] => Some st
+  | l :: r => match shadow_step st l with Some st' => shadow_exec st' r | None => None end
+  end.
